@@ -58,7 +58,7 @@ void ApiRun::exec(const Op &o) {
     if (disk_faulted) arm_faults(o);
     // a quarter of the read-only look-ups may be aimed at a CIF on which an iterator is open (any container but the one holding the
     // iterated loop): defined behaviour, which must neither disturb the iteration nor report anything but the current content
-    beside_ok = !cfg.weights[O_PlantFail] && (o.seed % 4 == 1) && (o.k == O_BlockGet || o.k == O_BlocksAll || o.k == O_FrameGet || o.k == O_FramesAll || o.k == O_LoopByCat || o.k == O_LoopByItem);
+    beside_ok = !cfg.weights[O_PlantFail] && !cfg.enumerate_alloc && (o.seed % 4 == 1) && (o.k == O_BlockGet || o.k == O_BlocksAll || o.k == O_FrameGet || o.k == O_FramesAll || o.k == O_LoopByCat || o.k == O_LoopByItem);
     try {
         switch (o.k) {
             case O_CifCreate: op_cif_create(o); break; case O_CifDestroy: op_cif_destroy(o); break;
